@@ -65,6 +65,24 @@ CLAIMED = {
              "refused loudly by make1dGrid and only counted.",
         technique="Coq proof (field/nra/Coquelicot auto_derive) on a translated model + translation validation + implementation oracle",
         design="6/C09"),
+    "C01": dict(
+        text="Coq theorems (axiom-free): followPerpendicular's split/reverse recursion returns the points in the order of psivals for EVERY strictly monotone "
+             "list and every psi0; with fillRZ's slices (regenerated from the source as fingerprints) every entry of the four staggered arrays is point ps+2j of "
+             "contour cs+2i for ANY sizes, hence lies on the flux surface of its radial index within the refine contract and psi is constant along y within 2 tol. "
+             "The recursion model is run against the real followPerpendicular on a closed-form curved field; the psi residual at all four locations, the pinned "
+             "corners and the index map are checked on every corpus grid (incl. non-orthogonal with 2 processes, a psi gauge with an exact-zero limit).",
+        note="Trusted: Coq kernel; hand model + fingerprints; the refine contract (convergence of refinePoint/solve_ivp) is monitored on real grids, not proved; "
+             "corpus = analytic Gaussian families + circular (no TORPEX X-point case: needs sympy).",
+        category="proof", technique="Coq proof (list induction) on a hand model + source fingerprints + grid oracle", design="6/C01"),
+    "C04": dict(
+        text="Coq theorems (axiom-free): for every strictly monotone psi_vals, inside or outside the separatrix, the points MeshRegion computes for one skeleton "
+             "point are the flow points in the order of psi_vals, and after transposition and slicing all points sharing a poloidal index lie on ONE integral "
+             "curve through skeleton point ps+2j (any sizes). Checked on the implementation: followPerpendicular vs a closed-form curved flow at rtol 1e-10; "
+             "equilibrium.f_R/f_Z/Bp vs an independent spline in boxes of several aspect ratios; every orthogonal corpus grid vs an independent DOP853 "
+             "re-integration (threshold 2e-5 m, observed <= 5e-7 m); g12=g13=g_12=g_13=0.",
+        note="Trusted: Coq kernel; hand model + fingerprints; the ODE-solver contract is monitored (independent re-integration), the second-order alignment "
+             "statement is a consequence observed, not proved; dct-interpolated grids are skipped by the re-integration.",
+        category="proof", technique="Coq proof on a hand model + independent re-integration oracle", design="6/C04"),
 }
 
 PENDING = ["C01", "C03", "C04", "C05", "C06", "C07", "C08", "C09", "C10", "C11", "C12", "C13", "C14", "C15", "C16", "C17", "C18", "C19", "C20"]
